@@ -594,6 +594,27 @@ func (e *Env) trCall(n *ast.CallExpr) TVal {
 		return TVal{T: "(= (dyntype " + arg(0).T + ") " + strconv.Itoa(e.x.eng.typeID(tn)) + ")", Sort: "Bool"}
 	case "forall", "exists":
 		return e.trQuant(fname, n)
+	case "all":
+		// all(s, x, body): body holds for every element x of slice s
+		if !need(3) {
+			return TVal{T: "false", Sort: "Bool"}
+		}
+		sv := arg(0)
+		id, ok := n.Args[1].(*ast.Ident)
+		if !ok || sv.Sort != "Slice" || sv.Ty == nil {
+			return e.fail("all(slice, elementName, body)")
+		}
+		sl, ok := sv.Ty.Underlying().(*types.Slice)
+		if !ok {
+			return e.fail("all: not a slice")
+		}
+		comp := e.x.so.elemComp(sl.Elem())
+		row := "(select " + e.st.get(comp) + " (s_base " + sv.T + "))"
+		sub := e.clone()
+		sub.errs = e.errs
+		sub.vars[id.Name] = TVal{T: "(select " + row + " j!)", Sort: e.x.so.sortOf(sl.Elem()), Ty: sl.Elem()}
+		body := sub.tr(n.Args[2])
+		return TVal{T: "(forall ((j! Int)) (! (=> (and (<= (s_off " + sv.T + ") j!) (< j! (+ (s_off " + sv.T + ") (s_len " + sv.T + ")))) " + body.T + ") :pattern ((select " + row + " j!))))", Sort: "Bool"}
 	case "int", "int64", "int32", "int8", "uint64", "uint32", "uint8", "uint", "byte", "int16", "uint16":
 		if !need(1) {
 			return TVal{T: "0", Sort: "Int"}
